@@ -24,7 +24,7 @@ ASSUMPTIONS = ['interleavings are explored between libc calls under sequentially
                'sqlite busy retries are turned into yield points; a writer that gives up loudly (database is locked) is inconclusive, silent loss is a violation',
                'every schedule is fair and finite (when the generated list is exhausted the remaining processes run round-robin)']
 
-N = {'quick': 6, 'thorough': 800}     # per shard, shared by its strata (quick: 2 cases per (config, scenario) stratum, each ~60 schedules)
+N = {'quick': 6, 'thorough': 400}     # per shard, shared by its strata (quick: 2 cases per (config, scenario) stratum, each ~60 schedules)
 SHARDS = {'quick': 13, 'thorough': 16}
 MIN_PER_STRATUM = 2
 TIME_BUDGET = {'quick': 200, 'thorough': 3000}
